@@ -69,15 +69,13 @@ def scanRaw : Bytes → Except Err (Bytes × Bytes)
 
 /-- the inner loop of ParseSInterP after `{`: the name up to `}`; running off the end panics -/
 def takeName : Bytes → Except Err (Bytes × Bytes)
-  | [] => .error .index
-  | c :: rest =>
-    if c = RBR then .ok ([], rest)
-    else match rest with
-      | [] => .error .openBrace
-      | _ =>
-        match takeName rest with
-        | .ok (n, r) => .ok (c :: n, r)
-        | .error e => .error e
+  | [] => .error .index                                           -- `buf[i]` with i = len(buf)
+  | [c] => if c = RBR then .ok ([], []) else .error .openBrace    -- i++ reaches the end
+  | c :: c2 :: rest =>
+    if c = RBR then .ok ([], c2 :: rest)
+    else match takeName (c2 :: rest) with
+      | .ok (n, r) => .ok (c :: n, r)
+      | .error e => .error e
 
 /-- ParseSInterP: (format, hole names) -/
 def parseInterp : (fuel : Nat) → Bytes → Except Err (Bytes × List Bytes)
